@@ -127,8 +127,7 @@ def run(repo, chk):
     # CodeGen generates eagerly
     cgc = repo.find_class(GEN, 'CodeGen')
     pi = [n for n in cgc.body if isinstance(n, ast.FunctionDef) and n.name == '__post_init__']
-    chk.expect(bool(pi) and 'self.make_funcs()' in src(pi[0]), 'C10.X4', 'CodeGen.__post_init__ generates eagerly',
-               'all functions are generated (and all CodeGenErrors raised) at construction', GEN)
+    _options_interpreted(repo, chk)
     # integer immediates are bounded before they are printed in decimal
     gf = GenFacts(repo)
     n_lit = 0
@@ -155,12 +154,6 @@ def run(repo, chk):
                            'after the output file has been opened)', GEN, n.lineno)
     chk.floor('literal immediates from program data', n_lit, 3)
     # option validation in CodeGen.__post_init__
-    if pi:
-        t = src(pi[0])
-        chk.expect('self.word_size < 2' in t and 'self.stack_size < 0' in t and 'self.max_signed' in t, 'C10.X4',
-                   'CodeGen.__post_init__ option validation',
-                   'word size, and both bounds of the stack size, must be validated (a negative stack size yields `.zero -Nw`, '
-                   'which is not valid assembly although hidc reports success)', GEN)
 
     # the lexer's patterns admit only text that the unguarded conversions (int(text, 16) ...) accept
     chk.rule('C10.X6', 'diagnostic paths are themselves total: literal patterns admit only convertible text (C12.R1); building the '
@@ -420,6 +413,51 @@ def run(repo, chk):
     _labels_defined(repo, chk, gf)
     chk.not_decided = ['implicit exceptions outside the partial-builtin table', 'recursion depth (excluded by the property)',
                        'acceptance of the output by the real Sphinx assembler']
+
+
+def _options_interpreted(repo, chk):
+    """CodeGen.__post_init__, interpreted with body generation stubbed, for option combinations at and beyond every
+    boundary: unusable options end in CodeGenError (never in another exception), usable ones generate all functions
+    before the constructor returns (so every CodeGenError is raised before the output file exists)."""
+    gf = GenFacts(repo)
+    ns = gf.module_ns()
+    CG, A, DT = ns['CodeGen'], ns['ast'], ns['DataType']
+
+    class _O:
+        pass
+
+    def construct(ws, ss):
+        g = object.__new__(CG)
+        g.word_size, g.stack_size, g.unchecked = ws, ss, False
+        g.env = _O()
+        decl = _O()
+        decl.ret_type, decl.params, decl.span = DT.EMPTY, [], None
+        g.env.funcs = {A.Ident.you('is_you'): {(): decl}}
+        g.state_data, g.const_data, g.numbered_labels, g.func_labels = {}, {}, {}, {}
+        log = []
+        g.label_for_func = lambda sig: log.append('label')
+        g.make_funcs = lambda: log.append('make_funcs')
+        g.__post_init__()
+        return log
+    cases = [(0, 500, False), (1, 500, False), (-2, 500, False), (2, -1, False), (2, -5, False), (4, -1, False),
+             (2, 10 ** 9, False), (2, (1 << 15) // 2, False), (3, 1 << 23, False),
+             (2, 0, True), (2, 500, True), (2, 16000, True), (3, 500, True), (4, 10 ** 6, True), (8, 10 ** 6, True)]
+    for ws, ss, usable in cases:
+        key = f'CodeGen(word_size={ws}, stack_size={ss})'
+        try:
+            log = construct(ws, ss)
+            got = 'accepted'
+        except ns['CodeGenError'] as e:
+            got, log = f'CodeGenError: {e}', None
+        except Exception as e:      # noqa: BLE001
+            got, log = f'{type(e).__name__}: {e}', None
+        if usable:
+            ok = got == 'accepted' and log and log[-1] == 'make_funcs' and 'label' in log
+            why = 'usable options must be accepted and every function generated before the constructor returns'
+        else:
+            ok = got.startswith('CodeGenError')
+            why = 'unusable options must be rejected with a CodeGenError (a located diagnostic), not accepted and not another exception'
+        chk.expect(ok, 'C10.X4', key, f'{got}; {why}', GEN)
 
 
 def _int_literal_arm(repo, chk, gf):
